@@ -8,6 +8,7 @@ import warnings
 import numpy
 
 from . import gates
+from . import timeouts as _T
 
 G = gates.GATES
 
@@ -65,7 +66,7 @@ def extra_run(ctx, res):
         want = elems[idx] if valid else None
         case = {"text": text, "override": ov, "how": how}
         res.count(f"c14 {how} {'alias' if alias else 'direct'} {'valid' if valid else 'invalid'}")
-        signal.alarm(10)
+        signal.alarm(_T.limit())
         try:
             c = parse_jaqal_string(text, inject_pulses=G, autoload_pulses=False)
             if ov:
@@ -83,6 +84,7 @@ def extra_run(ctx, res):
             else:
                 res.oracle_case("invalid_reference_rejected", True, case)
         except TimeoutError:
+            _T.saw_hang()
             res.oracle_case("terminates", False, case, "timeout")
         except Exception as e:  # any other exception class
             res.oracle_case("rejection_is_jaqalerror", False, case, f"{type(e).__name__}: {e}")
